@@ -355,6 +355,10 @@ class DynGraph(nx.Graph):
             raise ValueError("The specified interaction extension is broader than "
                              "the ones already present for the given nodes.")
 
+        # the events of an undirected pair keep the endpoint order of its first insertion
+        if self.has_edge(u, v) and (v, u, "+") in self.time_to_edge.get(self._adj[u][v]['t'][0][0], {}):
+            u, v = v, u
+
         if u not in self._node:
             self._adj[u] = self.adjlist_inner_dict_factory()
             self._node[u] = {}
